@@ -1,10 +1,294 @@
 import DryocVerif.Model.PwhashStr
 import DryocVerif.Proofs.Base64Lemmas
+import DryocVerif.Proofs.PwhashStr
+/-
+C10 — the password-hash STRING layer (`Model.PwhashStr`, mirroring
+`pwhash_to_string`, `Pwhash::parse_encoded_pwhash`, `crypto_pwhash_str_verify`,
+`crypto_pwhash_str_needs_rehash`, `PwHash::to_string/from_string`).
+
+Helper lemmas live in `Proofs/PwhashStr.lean`.
+-/
 namespace DryocVerif.Properties.C10
-open DryocVerif
+open DryocVerif DryocVerif.Spec.Base64 DryocVerif.Model.PwhashStr
 
 /-- base64 (no padding) decoding inverts encoding for every byte string -/
 theorem b64_roundtrip (bs : Bytes) : Spec.Base64.decodeChars (Spec.Base64.encodeChars bs) = some bs :=
   Spec.Base64.decode_encode bs
+
+/-! ## 1. decimal numbers -/
+
+/-- `u32::to_string` then `str::parse::<u32>` is the identity on `u32` -/
+theorem dec_roundtrip (n : Nat) (h : n < 2 ^ 32) : parseU32 (toDec n) = some n :=
+  parseU32_toDec n h
+
+/-- the fuel (40 digits) of `toDec` suffices far beyond `u32`: for every `n < 10^40` the printed
+string parses back to `n` exactly when `n` fits a `u32`, and is rejected (overflow) otherwise -/
+theorem dec_roundtrip_full (n : Nat) (h : n < 10 ^ 40) :
+    parseU32 (toDec n) = if n < 2 ^ 32 then some n else none := by
+  split
+  · rename_i h32; exact parseU32_toDec n h32
+  · rename_i h32; exact parseU32_toDec_overflow n h (by omega)
+
+/-- printed numbers: non-empty, ASCII digits only; in particular no sign and no separator -/
+theorem toDec_digits (n : Nat) :
+    toDec n ≠ [] ∧ (∀ c ∈ toDec n, '0' ≤ c ∧ c ≤ '9') ∧
+    '+' ∉ toDec n ∧ '$' ∉ toDec n ∧ ',' ∉ toDec n ∧ '=' ∉ toDec n :=
+  ⟨toDec_ne_nil n, toDec_isDigit n, (toDec_not_mem n).2.2.2, (toDec_not_mem n).1,
+   (toDec_not_mem n).2.1, (toDec_not_mem n).2.2.1⟩
+
+theorem parseU32_rejects_empty : parseU32 [] = none := rfl
+theorem parseU32_rejects_lone_plus : parseU32 ['+'] = none := by decide
+theorem parseU32_rejects_overflow : parseU32 (toDec (2 ^ 32)) = none := by decide
+theorem parseU32_accepts_max : parseU32 (toDec (2 ^ 32 - 1)) = some (2 ^ 32 - 1) := by decide
+/-- whatever `parseU32` accepts is a `u32` -/
+theorem parseU32_range (s : Str) (v : Nat) (h : parseU32 s = some v) : v < 2 ^ 32 :=
+  parseU32_lt s v h
+
+/-! ## 2. alphabet -/
+
+/-- every character of a base64 field is in the standard alphabet (the decoder accepts it) -/
+theorem b64_alphabet (bs : Bytes) : ∀ c ∈ encodeChars bs, (decodeSextet c).isSome = true :=
+  encodeChars_isB64 bs
+
+/-- … hence never a separator or '=' -/
+theorem b64_no_separators (bs : Bytes) :
+    '$' ∉ encodeChars bs ∧ ',' ∉ encodeChars bs ∧ '=' ∉ encodeChars bs :=
+  encodeChars_not_mem bs
+
+/-- a base64 field is never mistaken for a version field or a parameter list -/
+theorem b64_not_param (bs : Bytes) :
+    stripPrefix "v=".toList (encodeChars bs) = none ∧
+    isInfix "m=".toList (encodeChars bs) = false ∧
+    isInfix "t=".toList (encodeChars bs) = false ∧
+    isInfix "p=".toList (encodeChars bs) = false :=
+  have h := (encodeChars_not_mem bs).2.2
+  ⟨stripPrefix_none_of_not_mem '=' (by decide) h,
+   isInfix_false_of_not_mem '=' (by decide) h,
+   isInfix_false_of_not_mem '=' (by decide) h,
+   isInfix_false_of_not_mem '=' (by decide) h⟩
+
+/-- `split('$')` of an encoded string yields exactly the six intended fields -/
+theorem split_encode (alg : Alg) (t m : Nat) (salt hash : Bytes) :
+    splitOn '$' (encode alg t m salt hash) =
+      [[], alg.name, "v=".toList ++ toDec 19,
+       "m=".toList ++ (toDec m ++ (',' :: ("t=".toList ++ (toDec t ++ (',' :: "p=1".toList))))),
+       encodeChars salt, encodeChars hash] :=
+  splitOn_encode alg t m salt hash
+
+/-! ## 3. parse ∘ encode -/
+
+/-- the parser recovers exactly what the encoder was given — for both algorithms, all `u32`
+costs, and EVERY non-empty salt and hash (including ones whose base64 text begins with
+"argon2": the algorithm-name branch is only taken while no algorithm has been seen) -/
+theorem parse_encode (alg : Alg) (t m : Nat) (salt hash : Bytes)
+    (ht : t < 2 ^ 32) (hm : m < 2 ^ 32) (hs : salt ≠ []) (hh : hash ≠ []) :
+    parse (encode alg t m salt hash) =
+      .ok { pwhash := some hash, salt := some salt, ty := some alg, t := some t, m := some m,
+            p := some 1, version := some 19 } :=
+  Model.PwhashStr.parse_encode alg t m salt hash ht hm hs hh
+
+/-! ## 4. parse-then-print is the identity on the encoder's range -/
+
+theorem reencode_encode (alg : Alg) (t m : Nat) (salt hash : Bytes)
+    (ht : t < 2 ^ 32) (hm : m < 2 ^ 32) (hs : salt ≠ []) (hh : hash ≠ []) :
+    reencode (encode alg t m salt hash) = .ok (encode alg t m salt hash) := by
+  unfold reencode
+  rw [parse_encode alg t m salt hash ht hm hs hh]
+
+/-! ## 5. needs-rehash -/
+
+/-- general form: for any accepted string the answer is "some cost differs" -/
+theorem needs_rehash_of_parse (s : Str) (r : Parsed) (opslimit memlimit : Nat)
+    (h : parse s = .ok r) :
+    ∃ t m, r.t = some t ∧ r.m = some m ∧
+      needsRehash s opslimit memlimit =
+        .ok (decide (¬ (t = opslimit % 2 ^ 32 ∧ m = memlimit / 1024 % 2 ^ 32))) := by
+  obtain ⟨ty, t, m, salt, hash, _, _, hr⟩ := parse_ok_fields h
+  subst hr
+  refine ⟨t, m, rfl, rfl, ?_⟩
+  unfold needsRehash
+  rw [h]
+  simp only [Option.some.injEq, ne_eq]
+  congr 1
+  rw [decide_eq_decide]
+  omega
+
+theorem needs_rehash_encode (alg : Alg) (t m : Nat) (salt hash : Bytes) (opslimit memlimit : Nat)
+    (ht : t < 2 ^ 32) (hm : m < 2 ^ 32) (hs : salt ≠ []) (hh : hash ≠ [])
+    (ho : opslimit < 2 ^ 32) (hl : memlimit / 1024 < 2 ^ 32) :
+    needsRehash (encode alg t m salt hash) opslimit memlimit =
+      .ok (decide (¬ (t = opslimit ∧ m = memlimit / 1024))) := by
+  obtain ⟨t', m', h1, h2, h3⟩ :=
+    needs_rehash_of_parse _ _ opslimit memlimit (parse_encode alg t m salt hash ht hm hs hh)
+  cases h1; cases h2
+  rw [h3, Nat.mod_eq_of_lt ho, Nat.mod_eq_of_lt hl]
+
+/-- no rehash needed exactly when both recorded costs equal the requested ones -/
+theorem needs_rehash_iff (alg : Alg) (t m : Nat) (salt hash : Bytes) (opslimit memlimit : Nat)
+    (ht : t < 2 ^ 32) (hm : m < 2 ^ 32) (hs : salt ≠ []) (hh : hash ≠ [])
+    (ho : opslimit < 2 ^ 32) (hl : memlimit / 1024 < 2 ^ 32) :
+    needsRehash (encode alg t m salt hash) opslimit memlimit = .ok false ↔
+      (t = opslimit ∧ m = memlimit / 1024) := by
+  rw [needs_rehash_encode alg t m salt hash opslimit memlimit ht hm hs hh ho hl]
+  simp
+
+/-- … and `Ok(true)` otherwise (never an error on the encoder's own output) -/
+theorem needs_rehash_true_iff (alg : Alg) (t m : Nat) (salt hash : Bytes) (opslimit memlimit : Nat)
+    (ht : t < 2 ^ 32) (hm : m < 2 ^ 32) (hs : salt ≠ []) (hh : hash ≠ [])
+    (ho : opslimit < 2 ^ 32) (hl : memlimit / 1024 < 2 ^ 32) :
+    needsRehash (encode alg t m salt hash) opslimit memlimit = .ok true ↔
+      ¬ (t = opslimit ∧ m = memlimit / 1024) := by
+  rw [needs_rehash_encode alg t m salt hash opslimit memlimit ht hm hs hh ho hl]
+  simp only [Outcome.ok.injEq, decide_eq_true_eq]
+
+/-! ## 6. the string is self-describing -/
+
+theorem encode_records_inputs (a a' : Alg) (t t' m m' : Nat) (s s' h h' : Bytes)
+    (ht : t < 2 ^ 32) (hm : m < 2 ^ 32) (hs : s ≠ []) (hh : h ≠ [])
+    (ht' : t' < 2 ^ 32) (hm' : m' < 2 ^ 32) (hs' : s' ≠ []) (hh' : h' ≠ [])
+    (e : encode a t m s h = encode a' t' m' s' h') :
+    a = a' ∧ t = t' ∧ m = m' ∧ s = s' ∧ h = h' := by
+  have h1 := parse_encode a t m s h ht hm hs hh
+  have h2 := parse_encode a' t' m' s' h' ht' hm' hs' hh'
+  rw [e, h2] at h1
+  simp only [Outcome.ok.injEq, Parsed.mk.injEq, Option.some.injEq] at h1
+  obtain ⟨e1, e2, e3, e4, e5, _⟩ := h1
+  exact ⟨e3.symm, e4.symm, e5.symm, e2.symm, e1.symm⟩
+
+/-! ## 7. verification -/
+
+theorem strVerify_encode (argon2 : Nat → Nat → Nat → Nat → Bytes → Bytes → Nat → Outcome Bytes)
+    (alg : Alg) (t m : Nat) (salt hash pwd : Bytes)
+    (ht : t < 2 ^ 32) (hm : m < 2 ^ 32) (hs : salt ≠ []) (hh : hash ≠ []) :
+    strVerify argon2 (encode alg t m salt hash) pwd =
+      match argon2 alg.num t m 1 pwd salt 32 with
+      | .ok computed => if computed = hash then .ok () else .err
+      | .err => .err
+      | .panic => .panic := by
+  unfold strVerify
+  rw [parse_encode alg t m salt hash ht hm hs hh]
+  rfl
+
+/-- verification succeeds exactly when recomputing Argon2 with the recorded algorithm, costs and
+salt (32-byte output, one lane) reproduces the recorded hash -/
+theorem strVerify_iff (argon2 : Nat → Nat → Nat → Nat → Bytes → Bytes → Nat → Outcome Bytes)
+    (alg : Alg) (t m : Nat) (salt hash pwd : Bytes)
+    (ht : t < 2 ^ 32) (hm : m < 2 ^ 32) (hs : salt ≠ []) (hh : hash ≠ []) :
+    strVerify argon2 (encode alg t m salt hash) pwd = .ok () ↔
+      argon2 alg.num t m 1 pwd salt 32 = .ok hash := by
+  rw [strVerify_encode argon2 alg t m salt hash pwd ht hm hs hh]
+  cases h : argon2 alg.num t m 1 pwd salt 32 with
+  | ok c =>
+    by_cases hc : c = hash
+    · simp [hc]
+    · simp [hc]
+  | err => simp
+  | panic => simp
+
+/-! ## 8. totality -/
+
+theorem parse_never_panics (s : Str) : parse s ≠ .panic := parse_ne_panic s
+
+/-- the `unwrap()`s after a successful parse cannot fail: every field is present -/
+theorem parse_ok_complete (s : Str) (r : Parsed) (h : parse s = .ok r) :
+    ∃ ty t m salt hash, salt ≠ [] ∧ hash ≠ [] ∧
+      r = { pwhash := some hash, salt := some salt, ty := some ty, t := some t, m := some m,
+            p := some 1, version := some 19 } :=
+  parse_ok_fields h
+
+/-- every accepted cost is a `u32` -/
+theorem parse_ok_range (s : Str) (r : Parsed) (h : parse s = .ok r) :
+    (∀ t, r.t = some t → t < 2 ^ 32) ∧ (∀ m, r.m = some m → m < 2 ^ 32) :=
+  Model.PwhashStr.parse_ok_range h
+
+theorem reencode_never_panics (s : Str) : reencode s ≠ .panic := by
+  unfold reencode
+  cases h : parse s with
+  | ok r =>
+    obtain ⟨ty, t, m, salt, hash, _, _, hr⟩ := parse_ok_fields h
+    subst hr; simp
+  | err => simp
+  | panic => exact absurd h (parse_ne_panic s)
+
+theorem needsRehash_never_panics (s : Str) (o l : Nat) : needsRehash s o l ≠ .panic := by
+  unfold needsRehash
+  cases h : parse s with
+  | ok r => simp
+  | err => simp
+  | panic => exact absurd h (parse_ne_panic s)
+
+theorem strVerify_never_panics
+    (argon2 : Nat → Nat → Nat → Nat → Bytes → Bytes → Nat → Outcome Bytes)
+    (hA : ∀ ty t m p pwd salt n, argon2 ty t m p pwd salt n ≠ .panic)
+    (s : Str) (pwd : Bytes) : strVerify argon2 s pwd ≠ .panic := by
+  unfold strVerify
+  cases h : parse s with
+  | ok r =>
+    obtain ⟨ty, t, m, salt, hash, _, _, hr⟩ := parse_ok_fields h
+    subst hr
+    simp only
+    cases ha : argon2 ty.num t m 1 pwd salt 32 with
+    | ok c => by_cases hc : c = hash <;> simp [hc]
+    | err => simp
+    | panic => exact absurd ha (hA _ _ _ _ _ _ _)
+  | err => simp
+  | panic => exact absurd h (parse_ne_panic s)
+
+/-- every accepted string — not only the encoder's own output — is re-printed as a canonical
+string that parses to the very same record … -/
+theorem reencode_ok_parse (s s' : Str) (h : reencode s = .ok s') :
+    ∃ r, parse s = .ok r ∧ parse s' = .ok r := by
+  unfold reencode at h
+  cases hp : parse s with
+  | ok r =>
+    obtain ⟨ty, t, m, salt, hash, hs, hh, hr⟩ := parse_ok_fields hp
+    have hrange := Model.PwhashStr.parse_ok_range hp
+    subst hr
+    rw [hp] at h
+    simp only [Outcome.ok.injEq] at h
+    subst h
+    exact ⟨_, rfl, parse_encode ty t m salt hash (hrange.1 t rfl) (hrange.2 m rfl) hs hh⟩
+  | err => rw [hp] at h; cases h
+  | panic => rw [hp] at h; cases h
+
+/-- … hence `from_string ∘ to_string` is idempotent on all accepted inputs -/
+theorem reencode_idempotent (s s' : Str) (h : reencode s = .ok s') : reencode s' = .ok s' := by
+  obtain ⟨r, hp, hp'⟩ := reencode_ok_parse s s' h
+  unfold reencode at h ⊢
+  rw [hp] at h
+  rw [hp']
+  exact h
+
+/-! ## non-vacuity -/
+
+/-- a salt (and hash) whose base64 text is literally "argon2id" -/
+def trickySalt : Bytes := [0x6A, 0xB8, 0x28, 0x9F, 0x68, 0x9D]
+
+example : encodeChars trickySalt = "argon2id".toList := by decide
+
+example : encode .argon2i 3 65536 trickySalt trickySalt =
+    "$argon2i$v=19$m=65536,t=3,p=1$argon2id$argon2id".toList := by decide
+
+example : parse "$argon2i$v=19$m=65536,t=3,p=1$argon2id$argon2id".toList =
+    .ok { pwhash := some trickySalt, salt := some trickySalt, ty := some .argon2i, t := some 3,
+          m := some 65536, p := some 1, version := some 19 } := by decide
+
+example : reencode "$argon2id$v=19$m=4294967295,t=0,p=1$AA$/w".toList =
+    .ok "$argon2id$v=19$m=4294967295,t=0,p=1$AA$/w".toList := by decide
+
+example : needsRehash (encode .argon2id 2 65536 [1] [2]) 2 (65536 * 1024) = .ok false := by decide
+example : needsRehash (encode .argon2id 2 65536 [1] [2]) 3 (65536 * 1024) = .ok true := by decide
+-- memlimit is truncated to KiB before comparison
+example : needsRehash (encode .argon2id 2 65536 [1] [2]) 2 (65536 * 1024 + 1023) = .ok false := by decide
+
+-- rejected inputs (the error side is inhabited)
+example : parse "$argon2x$v=19$m=1,t=1,p=1$AA$AA".toList = .err := by decide
+example : parse "$argon2i$v=19$m=4294967296,t=1,p=1$AA$AA".toList = .err := by decide
+example : parse "$argon2i$v=16$m=1,t=1,p=1$AA$AA".toList = .err := by decide
+example : parse "$argon2i$v=19$m=1,t=1,p=2$AA$AA".toList = .err := by decide
+example : parse [] = .err := by decide
+-- hypotheses `salt ≠ []`, `hash ≠ []` are necessary: the parser rejects its encoder's output
+example : parse (encode .argon2i 1 1 [] [1]) = .err := by decide
+example : parse (encode .argon2i 1 1 [1] []) = .err := by decide
 
 end DryocVerif.Properties.C10
